@@ -1,0 +1,15 @@
+//go:build verif
+
+// Contracts for the deductive verifier under /verif (comment-only file).
+package jitdec
+
+// The generated decoders address the fields of _Stack by these byte offsets and
+// bound the value stack by _MaxStackBytes: they must describe the real layout
+// (a wrong bound lets deep nesting write past sb: C07).
+//@ datainv stack_bound props C07: _MaxStackBytes == _MaxStack * 8 && _MaxStackBytes == sizeof(uintptr) * _MaxStack && _MaxStack == 4096
+//@ datainv stack_sb_size props C07: offsetof(_Stack, mm) - offsetof(_Stack, sb) == _MaxStackBytes
+//@ datainv stack_fsm_offset props C07: _FsmOffset == offsetof(_Stack, mm)
+//@ datainv stack_dbuf_offset props C07: _DbufOffset == offsetof(_Stack, dp)
+//@ datainv stack_ep_offset props C07: _EpOffset == offsetof(_Stack, ep)
+//@ datainv stack_size props C07: _StackSize == sizeof(_Stack)
+//@ datainv ptr_bytes props C07: _PtrBytes == 8 && _PTR_SIZE == 64
